@@ -591,6 +591,115 @@ class UnboundAfterLoop:
         self.name, self.where = name, where
 
 
+def written_summary(interp, s, frame, st, lo, hi, item_fn, heap_at, env_at=None, parts=None, label="loop", assume_at=None):
+    """Loop rule for a *written* summary (DESIGN I.5, source 1), to be called from a unit's loop hint.
+
+    heap_at: {sid: k -> (idx -> value)}   content of array cell sid after the iterations lo..k-1
+    env_at:  {name: k -> scalar value}    value of a local after the iterations lo..k-1
+    parts:   optional {sid: [(clause_name, idx -> condition)]}: the step obligation of that cell is split by region and
+             reported under the given clause names (obligation `<unit>:<clause_name>` instead of `<unit>:safety`).
+    assume_at: optional j -> [z3 facts]: instances, at the iteration of the step check, of universally quantified
+             preconditions of the unit (the caller is responsible for them being instances of stated preconditions).
+    Obligations generated (side obligations, proved like every other one):
+      init:  state(lo) == pre-state;   step: from state(j), lo <= j < hi, every normal path of the body ends in state(j+1);
+      raising body paths must be infeasible.  The post-state is state(hi).
+    Locals assigned in the body that the summary does not describe are *removed* from the frame after the loop (a later
+    read is a NameError path, never a wrong value); a pre-existing heap cell changed by the body but not described makes
+    the verdict UNDECIDED (EngineError)."""
+    env_at = env_at or {}
+    parts = parts or {}
+    where = f"{frame.fname}:{s.lineno}"
+    pre_env = dict(frame.env)
+    pre_heap = dict(st.heap)
+    target_names = _assigned_names([ast.Assign(targets=[s.target], value=ast.Constant(0))])
+    body_names = _assigned_names(s.body)
+
+    def state_at(k):
+        env = dict(pre_env)
+        heap = dict(pre_heap)
+        for name, f in env_at.items():
+            env[name] = f(k)
+        for sid, f in heap_at.items():
+            heap[sid] = Content("arr", A._memo(f(k)), pre_heap[sid].meta)
+        return env, heap
+
+    def goals_between(env_a, heap_a, env_b, heap_b, names):
+        """[(clause|None, z3 goal)]"""
+        out = []
+        for name in names:
+            for g in _eq_goals(env_a.get(name, _MISSING), env_b.get(name, _MISSING), False):
+                out.append((None, g))
+        for sid in heap_at:
+            shape = pre_heap[sid].meta["shape"]
+            idx = tuple(sv.fresh_int("y") for _ in shape)
+            rng = [sv.zb(sv.and_(sv.cmp(">=", x, 0), sv.cmp("<", x, d))) for x, d in zip(idx, shape)]
+            a = heap_a[sid].data(idx)
+            b = heap_b[sid].data(idx)
+            eqs = _eq_goals(a, b, False)
+            eq = z3.And(*eqs) if len(eqs) > 1 else eqs[0]
+            regions = parts.get(sid)
+            if not regions:
+                out.append((None, z3.Implies(z3.And(*rng), eq)))
+            else:
+                covered = []
+                for cname, reg in regions:
+                    c = sv.zb(reg(idx)) if not isinstance(reg(idx), bool) else z3.BoolVal(reg(idx))
+                    covered.append(c)
+                    out.append((cname, z3.Implies(z3.And(*rng, c), eq)))
+                out.append((None, z3.Implies(z3.And(*rng, z3.Not(z3.Or(*covered))), eq)))
+        return out
+
+    # ---- step
+    j = sv.fresh_int("j")
+    env_j, heap_j = state_at(j)
+    fr = Frame(frame.module, dict(env_j), frame.fname)
+    st2 = st.fork()
+    st2.heap = dict(heap_j)
+    st2.pc = list(st.pc) + [sv.zb(sv.cmp(">=", j, lo)), sv.zb(sv.cmp("<", j, hi))] + list(assume_at(j) if assume_at else [])
+    st2.events = []
+    with use_state(st2):
+        interp.assign(s.target, item_fn(j), fr)
+        outs = interp.exec_block_paths(s.body, fr, st2)
+    env_n, heap_n = state_at(A.simp(sv.add(j, 1)))
+    nnormal = 0
+    for fr3, st3, out in outs:
+        if out[0] == "raise":
+            st.side.append(_side_infeasible(st3, f"loop-body-raises:{out[1]}:{out[2]}", where))
+            continue
+        if out[0] not in ("normal", "continue"):
+            raise EngineError(f"loop body leaves the loop ({out[0]}) under a written summary")
+        nnormal += 1
+        for sid, c in st3.heap.items():
+            if sid in pre_heap and sid not in heap_at and c is not heap_j.get(sid):
+                raise EngineError(f"written summary of the loop at {where} does not describe heap cell #{sid} which the body modifies")
+        assum = st3.all_assumptions()
+        for cname, g in goals_between(fr3.env, st3.heap, env_n, heap_n, list(env_at)):
+            sg = _SideGoal(f"{label}-step", g, assum, where)
+            if cname:
+                sg.clause = cname
+            st.side.append(sg)
+    if nnormal == 0:
+        raise EngineError("loop body has no normal path")
+    # ---- init
+    env_0, heap_0 = state_at(lo)
+    for cname, g in goals_between(pre_env, pre_heap, env_0, heap_0, list(env_at)):
+        sg = _SideGoal(f"{label}-init", g, st.all_assumptions(), where)
+        if cname:
+            sg.clause = cname
+        st.side.append(sg)
+    # ---- post-state
+    env_f, heap_f = state_at(hi)
+    for name in body_names | target_names:
+        frame.env.pop(name, None)
+    for name in env_at:
+        frame.env[name] = env_f[name]
+    for sid in heap_at:
+        st.heap[sid] = heap_f[sid]
+        st.events.append(("store", sid, where, list(st.pc)))
+    if s.orelse:
+        interp.exec_body_single(s.orelse, frame)
+
+
 def _loop_ordinal(frame, s):
     """ordinal of this loop among the loops of its function (by source order)"""
     return getattr(s, "_pyvc_ordinal", s.lineno)
@@ -631,18 +740,19 @@ def _dtype_of_sid(env, sid, st, c):
     return "float"
 
 
-def _eq_goals(a, b):
+def _eq_goals(a, b, simplify=True):
     if a is _MISSING or b is _MISSING:
         return [z3.BoolVal(a is b)]
     a, b = norm(a), norm(b)
     if isinstance(a, Cx) or isinstance(b, Cx):
         a, b = sv.as_cx(a), sv.as_cx(b)
-        return _eq_goals(a.re, b.re) + _eq_goals(a.im, b.im)
+        return _eq_goals(a.re, b.re, simplify) + _eq_goals(a.im, b.im, simplify)
     if sv.is_scalar(a) and sv.is_scalar(b):
         # both sides in z3's simplified form: syntactic variants of one term (-x / -1*x, argument order) become identical
-        if isinstance(a, SV) and not a.is_bool:
+        # (not for written summaries: their goals keep the product structure the generalisation step matches on)
+        if simplify and isinstance(a, SV) and not a.is_bool:
             a = sv.wrap(z3.simplify(a.t))
-        if isinstance(b, SV) and not b.is_bool:
+        if simplify and isinstance(b, SV) and not b.is_bool:
             b = sv.wrap(z3.simplify(b.t))
         r = sv.cmp("==", a, b)
         if is_conc(r):
@@ -660,10 +770,10 @@ def _eq_goals(a, b):
             return [z3.BoolVal(False)]
         goals = []
         for x, y in zip(sa, sb):
-            goals.extend(_eq_goals(x, y))
+            goals.extend(_eq_goals(x, y, simplify))
         idx = tuple(sv.fresh_int("e") for _ in sa)
         rng = [sv.zb(sv.and_(sv.cmp(">=", x, 0), sv.cmp("<", x, d))) for x, d in zip(idx, sa)]
-        for g in _eq_goals(a.get(idx), b.get(idx)):
+        for g in _eq_goals(a.get(idx), b.get(idx), simplify):
             goals.append(z3.Implies(z3.And(*rng) if rng else z3.BoolVal(True), g))
         return goals
     if a is b:
@@ -673,7 +783,7 @@ def _eq_goals(a, b):
     if isinstance(a, (tuple,)) and isinstance(b, tuple) and len(a) == len(b):
         out = []
         for x, y in zip(a, b):
-            out.extend(_eq_goals(x, y))
+            out.extend(_eq_goals(x, y, simplify))
         return out
     if type(a) is type(b) and isinstance(a, (str, type(None))):
         return [z3.BoolVal(a == b)]
